@@ -327,7 +327,7 @@ func (m *vsModel) expectList(terms []vsTerm, limit int) []vsListEntry {
 // ---- workload generation ----
 
 var vsKeys = []string{"goos", "goarch", "pkg", "commit", "note", "k-1", "é", "a.b", "cpu"}
-var vsVals = []string{"linux", "darwin", "amd64", "1", "2", "10", "9", "x y", `q"uote`, `back\slash`, "a<b", "c>d", "k:v", "é世", "Intel(R) Core(TM)", "tab\there", "-", "zz", `"`, `\`, `a\"b c`, "fast\u00a0path", "a\vb", "x\u2003y", "f\ff", "\u00a0wide", "\u2003x", "\vlead", "it's", "rock'n'roll", "'", "'q'", "a=b", "100%", "semi;colon", "amp&ersand", "plus+sign", "#hash", "q?mark"}
+var vsVals = []string{"linux", "darwin", "amd64", "1", "2", "10", "9", "x y", `q"uote`, `back\slash`, "a<b", "c>d", "k:v", "é世", "Intel(R) Core(TM)", "tab\there", "-", "zz", `"`, `\`, `a\"b c`, "fast\u00a0path", "a\vb", "x\u2003y", "f\ff", "linux goarch:amd64", "\u00a0wide", "\u2003x", "\vlead", "it's", "rock'n'roll", "'", "'q'", "a=b", "100%", "semi;colon", "amp&ersand", "plus+sign", "#hash", "q?mark"}
 var vsNameBases = []string{"Encode", "Decode", "Sort", "Fib", "X"}
 var vsSubs = []string{"size=1", "size=10", "align=0", "poly=IEEE", "plain", "8", "fmt=json", "expr=a=b", "pad=YWI=", "eq=="}
 var vsServerKeys = []string{"upload", "upload-part", "upload-time", "upload-file", "by"}
